@@ -1,13 +1,14 @@
 SPECIFICATION Spec
 CONSTANTS
-  Addr <- Addr1
-  Gaps <- GapsJitter1
+  Addr <- Addr2
+  Gaps <- GapsJitter2
   T = 10
   D = 1
-  MaxEvents = 2
-  MaxFails = 3
+  MaxEvents = 4
+  MaxFails = 0
+  Extra = "start"
   Backoff = TRUE
-  Closed = TRUE
+  Closed = FALSE
   ObserveCb = FALSE
   TrackQuiet = FALSE
   UnitMs = 1000
